@@ -127,6 +127,28 @@ def run(ctx):
                 jobs.append({"mode": "layer", "p": pp, "acts": h["acts"]})
                 ndir += 1
     ctx.cov["directed_timeout_schedules"] = ndir
+    # (d) observe + block-wise (ObsBlock.tla): exhaustive at message granularity (every interleaving of resource changes,
+    #     notifications, block requests and blocks), the same without the ETag comparison must mix two representations
+    #     (vacuity guard); its plan catalogue is executed on two real udp connections
+    ro = vf.run_tlc(ctx, "bw", "MC_ObsBlock", "MC_ObsBlock.cfg", workers=8, timeout=1800, cont=False)
+    vf.tlc_must_finish(ro, "MC_ObsBlock")
+    if ro.inv:
+        raise vf.Machinery("design-level invariant failed in ObsBlock (spec bug, not a code verdict): %s" % ro.inv)
+    ctx.add("states", ro.distinct)
+    ctx.add("transitions", ro.generated)
+    rm = vf.run_tlc(ctx, "bw", "MC_ObsBlock", "MC_ObsBlock_mut.cfg", workers=4, timeout=600, cont=False)
+    if "NoMix" not in rm.inv:
+        raise vf.Machinery("vacuity guard: ObsBlock without the ETag comparison should violate NoMix, TLC reported %s" % rm.inv)
+    plans = json.load(open(os.path.join(ro.dir, "plans.json")))
+    nobs = 0
+    import random
+    prng = random.Random(ctx.seed * 17 + 4)
+    for l2, cs, ss in ((50, 0, 0), (33, 1, 0), (17, 0, 1), (10, 0, 0)) + (((64, 1, 1), (100, 2, 0)) if thorough else ()):
+        pl = plans if (thorough or l2 == 50) else prng.sample(plans, 40)
+        for plan in pl:
+            jobs.append({"mode": "obsbw", "p": {"l": 0, "l2": l2, "cs": cs, "ss": ss, "cmms": 2048, "smms": 2048}, "plan": plan})
+            nobs += 1
+    ctx.cov["observe_blockwise_plans"] = nobs
     ctx.cov["directed_retry_after_abandon_schedules"] = nretry
     if not jobs:
         raise vf.Machinery("no schedules generated")
@@ -141,7 +163,9 @@ def run(ctx):
     ctx.add("traces_validated_against_impl", len(traces))
     ctx.cov["scenarios"] = nscen
     ctx.cov["schedules_by_mode"] = {m: sum(1 for j in jobs if j["mode"] == m) for m in ("layer", "layerc", "udp", "tcp", "tcpconc")}
-    single = [t for t in traces if t["op"] != "conc"]
+    obsrecs = [t for t in traces if t["op"] == "obsbw"]
+    ctx.cov["observer_deliveries"] = sum(len(t["notes"]) for t in obsrecs)
+    single = [t for t in traces if t["op"] not in ("conc", "obsbw")]
     ctx.cov["messages_relayed"] = sum(len(t["msgs"]) for t in single)
     ctx.cov["completed_exchanges"] = sum(1 for t in single if t["ret"] == "ok" and t["retcode"] in (68, 69))
     ctx.cov["exchanges_ending_in_error_or_timeout"] = sum(1 for t in single if not (t["ret"] == "ok" and t["retcode"] in (68, 69)))
@@ -149,6 +173,20 @@ def run(ctx):
     obs = []
     for clause, idxs in sorted(bad.items()):
         ts = [traces[i] for i in idxs]
+        if clause == "K04_ObsCurrent":
+            ctx.drift.append({"clause": clause, "traces": len(ts), "example": {k: ts[0][k] for k in ("p", "plan", "nver", "lastSeen")}})
+            continue
+        ob = [t for t in ts if t["op"] == "obsbw"]
+        if ob:
+            t0 = min(ob, key=lambda t: len(t["plan"]))
+            vf.report(ctx, clause, {"mode": "observe-blockwise"},
+                      "%d observation(s) whose representations need block-wise transfer violate the clause; e.g. L2=%d szx %d/%d plan %s -> registration %s, bodies handed over %s, cancel %s, left %s" % (
+                          len(ob), t0["p"]["l2"], t0["p"]["cs"], t0["p"]["ss"], t0["plan"], t0["reg"], json.dumps([[n["seq"], n["len"], n["pieces"][:3]] for n in t0["notes"]])[:500], t0["cancel"],
+                          [t0[k] for k in ("rcvSrvX", "sndSrvX", "rcvCliX", "sndCliX", "obsCliX")]),
+                      {"trace": t0, "cmd": "bin/check C04 --tier %s" % ctx.tier})
+            ts = [t for t in ts if t["op"] != "obsbw"]
+            if not ts:
+                continue
         if clause == "K04_ConcCompletes":
             ctx.drift.append({"clause": clause, "traces": len(ts), "example_params": ts[0]["p"], "example": [[x["ret"], x["uplen"]] for x in ts[0]["x"]]})
             continue
@@ -182,7 +220,7 @@ def run(ctx):
         ctx.cov["observations"] = obs
 
     def mutate(t, rng):
-        if t["op"] != "conc" and t["app"] and t["app"][0]["len"] > 1 and t["p"]["l"] > 1:
+        if t["op"] not in ("conc", "obsbw") and t["app"] and t["app"][0]["len"] > 1 and t["p"]["l"] > 1:
             app = [dict(d) for d in t["app"]]
             ps = [list(x) for x in app[0]["pieces"]]
             ps[-1][2] -= 1
